@@ -132,11 +132,11 @@ SPEC = {
     "lean_modules": ["RsslVerif.Thm.C05"],
     "theorems": [T + n for n in [
         "source_shape_as_modelled", "descriptor_tables_agree", "register_class_of_descriptor", "msl_entry_names_agree",
-        "annot_matches_meta_hlsl", "annot_matches_meta_msl", "static_object_entry_without_annotation",
+        "annot_matches_meta_hlsl", "annot_matches_meta_msl", "non_extern_global_unbound",
         "descriptor_kind_count", "meta_bijective_hlsl", "meta_bijective_msl", "meta_bijective_msl_exact", "msl_sort_keeps_sorted",
         "excluded_declarations", "used_sound_complete_partial", "used_flag",
         "hlsl_params_of_targets", "hlsl_annotations_total", "annot_iff_entry", "annotations_match_metadata_hlsl",
-        "entry_named_and_defined", "entry_named_and_defined_needs_name_kept"]],
+        "entry_named_and_defined"]],
     "harness": "c05",
     "nontrivial": nontrivial,
     "finding_key": finding_key,
@@ -164,9 +164,9 @@ SPEC = {
                   "modules without static object globals and the printers cannot panic on the allocator's output; descriptor "
                   "type and count depend only on declared kind and array layer; the usage fixed point equals call-graph "
                   "reachability, so is_used on Metal holds iff some stage entry point reaches the global (HLSL always reports "
-                  "true); the reported entry point is the emitted function with the reported thread group size on Metal "
-                  "unconditionally and on HLSL under NameKept. Negation witnesses are proved for the two general statements "
-                  "that are false on the current code (static object global, renamed entry point). Tables, format strings "
+                  "true); the reported entry point is the emitted function with the reported thread group size on every "
+                  "target, whatever the name generator did (HLSL reports the exporter's generated name); non-extern globals "
+                  "are never bound. Tables, format strings "
                   "and about 60 syntactic facts are re-extracted from the source on each run; the model is compared with the real "
                   "compile() output on generated shaders.",
     "trusted_base": [
@@ -179,7 +179,8 @@ SPEC = {
         "Spec/Meta.lean: our reader of annotation text, D3D register classes of descriptor types, reachability",
         "harness oracle tables (which emitted HLSL / MSL type may be reported as which DescriptorType) written independently of "
         "the compiler's table",
-        "the name generator (NameMap) is not modelled: `NameKept` is a hypothesis; C15 owns it",
+        "the name generator (NameMap) is not modelled: the emitted name of every function/global is an input of the model "
+        "(requests whose names it changes are answered `unsupported-renamed-*` by the model and judged by the oracle only); C15 owns it",
     ],
     "assumptions": [
         "u32 arithmetic is modelled by Nat (C06); array lengths are the evaluated constants the type checker records",
